@@ -34,6 +34,7 @@ def request(rng, close=False, big=False):
         hs.append(('Connection', rng.choice(['close', 'Close', 'close', 'CLOSE', 'cLoSe', 'close, TE', 'keep-alive, close', 'TE,close', ' close', 'Upgrade,  Close ,TE'])))          # a list of case-insensitive options
         if rng.random() < 0.3: hs.insert(0, ('X-Scrub', '1'))          # the echo application's Scrub fang then removes `Connection` from the request after the handler
     elif rng.random() < 0.1: hs.append(('Connection', rng.choice(['keep-alive', 'keep-alive', 'Keep-Alive, TE', 'closed', 'close-notify', 'TE, disclose'])))          # not `close`
+    if rng.random() < 0.08: hs.insert(rng.randrange(len(hs) + 1), ('X-Set-Ip', rng.choice(['10.1.2.3', '203.0.113.9', '2001:db8::7'])))          # the context fang then overwrites the public field `ip` for this request
     if rng.random() < 0.12: hs.insert(rng.randrange(len(hs) + 1), ('X-Res-Conn', rng.choice(['keep-alive', 'keep-alive', 'close', 'Keep-Alive, Upgrade'])))          # the Scrub fang then writes this Connection field on the response
     head = f'{m} {path}{q} HTTP/1.1\r\n' + ''.join(f'{k}: {v}\r\n' for k, v in hs) + '\r\n'
     return head.encode(), body
